@@ -114,6 +114,8 @@ theorem runBody_frozen (U : Universe) (s : St) (x g : Gen) (hx : x = g → ¬ De
       · exact (k0.trans k1).trans (push_frozen _ _ g rfl)
       · exact (k0.trans k1).trans
           (Frozen.of_eq (by simp [nStart, List.countP_cons, isStarted]) rfl rfl rfl)
+      · exact (k0.trans k1).trans
+          (Frozen.of_eq (by simp [nStart, List.countP_cons, isStarted]) rfl rfl rfl)
 
 theorem afterBody_frozen (b : St × Next) (x : Nat) (p : Nat) (g : Gen) (hg : x = g → b.1.gens g ≠ none) :
     Frozen g b.1 (afterBody b x p) := by
@@ -133,15 +135,17 @@ theorem afterBody_frozen (b : St × Next) (x : Nat) (p : Nat) (g : Gen) (hg : x 
     · split
       · exact ⟨.inr (by simpa [pauseHead] using hk), rfl⟩
       · exact ⟨.inr (by simpa [rotHead] using hk), rfl⟩
+    · exact ⟨.inr hk, rfl⟩
   · apply Frozen.of_eq hn
     · unfold afterBody
       split
       · simp [finishHead, dropHead, Ne.symm hxg]
       · split <;> simp [pauseHead, rotHead, Ne.symm hxg]
+      · rfl
     · exact (afterBody_fields b x p).2.2.2 g (Ne.symm hxg)
     · rw [(afterBody_fields b x p).1]
 
-theorem turn_frozen (U : Universe) {c : St} (I : Inv c) {x : Gen} {pend : List Gen}
+theorem turn_frozen (U : Universe) [NoRaise U] {c : St} (I : Inv c) {x : Gen} {pend : List Gen}
     {done : List (Option Gen)} (h : Split c (x :: pend) done) (g : Gen) : Frozen g c (turn U c) := by
   obtain ⟨_, hc⟩ := turn_cases U I h
   rcases hc with ⟨hk, ht, _⟩ | ⟨hk, _, p, _, _, hg, _, ht, _⟩
@@ -263,13 +267,13 @@ theorem wake_frozen {s : St} (I : Inv s) (dt : Int) (hint : List Gen) (g : Gen) 
       exact ⟨⟨some g, d⟩, (sortRecs_perm hint _).mem_iff.mpr (List.mem_filter.mpr ⟨hm, by simpa using hd⟩),
         by simp⟩
 
-theorem turns_frozen (U : Universe) {c : St} (I : Inv c) {before rest : List Gen}
+theorem turns_frozen (U : Universe) [NoRaise U] {c : St} (I : Inv c) {before rest : List Gen}
     {done : List (Option Gen)} (h : Split c (before ++ rest) done) (g : Gen) :
     Frozen g c (turns U before.length c) :=
   (turns_rel U (Frozen g) (Frozen.refl g) (fun _ _ _ => Frozen.trans) (before := before)
     (fun c x pend done I hs _ => turn_frozen U I hs g) I h).1
 
-theorem process_frozen (U : Universe) {s : St} (T : Top s) (dt : Int) (hint : List Gen) (g : Gen) :
+theorem process_frozen (U : Universe) [NoRaise U] {s : St} (T : Top s) (dt : Int) (hint : List Gen) (g : Gen) :
     Frozen g s (process U s dt hint).1 := by
   obtain ⟨pend, _, I1, hsp, hp⟩ := process_frame U T dt hint
   have hw := (wake_frozen T.inv dt hint g).1
@@ -279,7 +283,7 @@ theorem process_frozen (U : Universe) {s : St} (T : Top s) (dt : Int) (hint : Li
   rw [hp]
   exact (hw.trans hr).trans ht
 
-theorem execOp_frozen (U : Universe) {s : St} (T : Top s) (op : Op) (g : Gen) :
+theorem execOp_frozen (U : Universe) [NoRaise U] {s : St} (T : Top s) (op : Op) (g : Gen) :
     Frozen g s (execOp U s op) := by
   cases op with
   | start h => exact (start_frozen U s h g).trans (push_frozen _ _ g rfl)
@@ -288,7 +292,7 @@ theorem execOp_frozen (U : Universe) {s : St} (T : Top s) (op : Op) (g : Gen) :
   | value h => exact push_frozen _ _ g rfl
   | process dt hint => exact (process_frozen U T dt hint g).trans (push_frozen _ _ g rfl)
 
-theorem run_frozen (U : Universe) {s : St} (T : Top s) (ops : List Op) (g : Gen) :
+theorem run_frozen (U : Universe) [NoRaise U] {s : St} (T : Top s) (ops : List Op) (g : Gen) :
     Frozen g s (run U s ops) := by
   induction ops generalizing s with
   | nil => exact Frozen.refl g s
@@ -321,7 +325,7 @@ theorem runBody_next_none (U : Universe) {s : St} {g : Gen} (hc : ¬ hasCode U s
     have : ¬ s.pc g < ((U.script g).getD []).length := fun hlt => hc ⟨h, hlt⟩
     rw [List.getElem?_eq_none (by omega)]
 
-theorem pend_mem (U : Universe) {s : St} (T : Top s) (dt : Int) (hint : List Gen) {pend : List Gen}
+theorem pend_mem (U : Universe) [NoRaise U] {s : St} (T : Top s) (dt : Int) (hint : List Gen) {pend : List Gen}
     (hact : (wakePhase s dt hint).1.active = none :: pend.map some) (x : Gen) :
     x ∈ pend ↔ runnableIn s dt x := by
   obtain ⟨_, _, _, _, _, woken, hwa, hwm⟩ := wake_frame T.inv dt hint
@@ -337,7 +341,7 @@ theorem pend_mem (U : Universe) {s : St} (T : Top s) (dt : Int) (hint : List Gen
     · exact .inr ⟨x, (hwm x).mpr h, rfl⟩
 
 /-- the state in which `g` (in the deque of this frame) gets its turn -/
-theorem before_turn (U : Universe) {c0 : St} (I0 : Inv c0) {before after : List Gen} {g : Gen}
+theorem before_turn (U : Universe) [NoRaise U] {c0 : St} (I0 : Inv c0) {before after : List Gen} {g : Gen}
     (hsp : Split c0 (before ++ g :: after) []) :
     ∃ c1 d1, c1 = turns U before.length c0 ∧ Inv c1 ∧ Split c1 (g :: after) d1 ∧ g ∉ before ∧ g ∉ after ∧
       Frozen g c0 c1 ∧ c1.pc g = c0.pc g ∧ c1.fin g = c0.fin g ∧
@@ -355,7 +359,7 @@ theorem before_turn (U : Universe) {c0 : St} (I0 : Inv c0) {before after : List 
   rw [List.length_append, List.length_cons, turns_add]
   simp only [turns]
 
-theorem process_released (U : Universe) {s : St} (T : Top s) (dt : Int) (hint : List Gen) (g : Gen)
+theorem process_released (U : Universe) [NoRaise U] {s : St} (T : Top s) (dt : Int) (hint : List Gen) (g : Gen)
     (hns : nStart (process U s dt hint).1 g = nStart s g) :
     (some g ∈ s.active → s.kill g = true → (process U s dt hint).1.gens g = none) ∧
     (s.kill g = true → (∃ d, (⟨some g, d⟩ : Rec) ∈ s.waiting ∧ d ≤ s.timer + dt) →
